@@ -542,6 +542,83 @@ where
             }
         }
     }
+    // long messages in both directions (64 KiB .. 2 MiB): long sequences are values like any other
+    {
+        use crux_http::protocol::{HttpHeader, HttpResponse, HttpResult};
+        // a bridge of its own, so that the long log entries do not slow the other round trips down
+        let bridge: Bridge<A> = Bridge::new(Core::new());
+        for len in [65_535usize, 65_536, 70_000, 300_000, 1 << 20, 2 << 20] {
+            let big = Outcome::Kv(KvOut::Data(Some(ByteBuf(rng.bytes(len)))));
+            let ev = Event::Got(big.clone());
+            let bytes = ser(&ev);
+            check_rust_bytes(&mut cx, &reg, "Event", &bytes);
+            cx.report.eval();
+            cx.report.count("long_messages_offered_to_bridge", 1);
+            cx.report.max("max_message_len", bytes.len() as u64);
+            match bridge.process_event(&bytes) {
+                Ok(_) => {
+                    let view = bridge.view().expect("view serialises");
+                    match decode_all_named(&reg, "ViewModel", &view) {
+                        Ok(_) => cx.report.nontrivial(fnv64(&bytes[..64]) ^ len as u64),
+                        Err(e) => cx.violation("ViewModel", "view-bytes-do-not-decode-under-the-schema", json!({"error": e.0, "len": len})),
+                    }
+                }
+                Err(e) => cx.violation("Event", "bridge-rejects-a-long-schema-valid-event", json!({"error": e.to_string(), "len": len})),
+            }
+            // and a long response: an http request answered with a body of that size
+            let job = Job::Http(
+                Api::Command,
+                HttpJob {
+                    id: 77,
+                    method: "GET".into(),
+                    url: "https://example.com/big".into(),
+                    headers: vec![],
+                    content_type: None,
+                    content_type_after_body: false,
+                    body: BodyJob::Bytes(ByteBuf(rng.bytes(len))),
+                    query: None,
+                    expect: ExpectJob::Bytes,
+                    client_mw: vec![],
+                    request_mw: vec![],
+                    send_async: false,
+                },
+            );
+            let out = match bridge.process_event(&ser(&Event::Do(job))) {
+                Ok(o) => o,
+                Err(e) => {
+                    cx.violation("Event", "bridge-rejects-a-long-schema-valid-event", json!({"error": e.to_string(), "len": len}));
+                    continue;
+                }
+            };
+            let id = match decode_all(&reg, &req_seq, &out) {
+                Ok(V::Seq(reqs)) => match reqs.first() {
+                    Some(V::Tuple(f)) => match f.first() {
+                        Some(V::U(id, _)) => *id as u32,
+                        _ => continue,
+                    },
+                    _ => continue,
+                },
+                Ok(_) => continue,
+                Err(e) => {
+                    cx.violation("Request", "effect-batch-from-the-bridge-does-not-decode-under-the-schema", json!({"error": e.0, "len": len}));
+                    continue;
+                }
+            };
+            let resp = ser(&HttpResult::Ok(HttpResponse {
+                status: 200,
+                headers: vec![HttpHeader {
+                    name: "x-len".into(),
+                    value: len.to_string(),
+                }],
+                body: rng.bytes(len),
+            }));
+            check_rust_bytes(&mut cx, &reg, "HttpResult", &resp);
+            cx.report.count("long_messages_offered_to_bridge", 1);
+            if let Err(e) = bridge.handle_response(id, &resp) {
+                cx.violation("HttpResult", "bridge-rejects-a-long-schema-valid-response", json!({"error": e.to_string(), "len": len}));
+            }
+        }
+    }
     // events from the schema: Got(outcome) is logged and comes back in the view
     {
         let mut rng2 = Rng::derive(rng.next_u64(), 3, 4);
